@@ -366,6 +366,9 @@ def m_named(r, asd) -> MT:
     return MT(n, f"TNamed {b} {names} {ts.replace('{asd}', b)} {ds}")
 
 
+_CUR_OVER: set = set()
+
+
 def m_type(r, depth, avail, allow_any=True, asd=False) -> MT:
     x = r.random()
     if x < 0.12:
@@ -381,7 +384,30 @@ def m_type(r, depth, avail, allow_any=True, asd=False) -> MT:
             t = m_scalar(r)
             if allow_any or t.py != "Any":
                 return t
-    k = r.choice(["List", "Set", "Dict", "Tuple", "Union", "Optional", "List", "Optional", "Tuple0"])
+    k = r.choice(["List", "Set", "Dict", "Tuple", "Union", "Optional", "List", "Optional", "Tuple0", "Map", "Map", "Counter", "ChainMap", "TupleVar",
+                  "Seq", "FrozenSet"])
+    if k in ("Map", "Counter", "ChainMap"):
+        kt = m_scalar(r)
+        while not kt.hashable or kt.py == "Any":
+            kt = m_scalar(r)
+        if k == "Counter" and "int" not in _CUR_OVER:
+            # (Counter emits additionalProperties through get_schema, not _get_schema_or_none: under an int override that yields Any
+            #  it keeps "additionalProperties": {} -- that corner is not in the model, so no Counter in a class that overrides int)
+            return MT(f"Counter[{kt.py}]", f"TMap ({kt.coq}) TInt", None, False, (), dom=kt.dom)
+        a = m_type(r, depth - 1, avail, asd=asd)
+        name = r.choice(["Dict", "Mapping", "OrderedDict", "DefaultDict", "MutableMapping"])
+        if k == "ChainMap":
+            return MT(f"ChainMap[{kt.py}, {a.py}]", f"TList (TMap ({kt.coq}) ({a.coq}))", None, False, a.classes, dom=kt.dom and a.dom)
+        return MT(f"{name}[{kt.py}, {a.py}]", f"TMap ({kt.coq}) ({a.coq})", None, False, a.classes, dom=kt.dom and a.dom)
+    if k in ("TupleVar", "Seq"):
+        a = m_type(r, depth - 1, avail, asd=asd)
+        py = f"Tuple[{a.py}, ...]" if k == "TupleVar" else r.choice(["Sequence", "Deque", "MutableSequence"]) + f"[{a.py}]"
+        return MT(py, f"TList ({a.coq})", None, False, a.classes, dom=a.dom)
+    if k == "FrozenSet":
+        a = m_scalar(r)
+        while not a.hashable:
+            a = m_scalar(r)
+        return MT(r.choice(["FrozenSet", "AbstractSet"]) + f"[{a.py}]", f"TSet ({a.coq})", dom=a.dom)
     if k == "List":
         a = m_type(r, depth - 1, avail, asd=asd)
         return MT(f"List[{a.py}]", f"TList ({a.coq})", None, False, a.classes, dom=a.dom)
@@ -428,7 +454,7 @@ def m_type(r, depth, avail, allow_any=True, asd=False) -> MT:
 # replacement types of overrides: python spelling of the serialize callable, Coq ov term, key of the replacement type
 OV_RET = [("ser_str", "ORet (Some TStr)", "str"), ("ser_int", "ORet (Some TInt)", "int"), ("ser_bool", "ORet (Some TBool)", "bool"),
           ("ser_float", "ORet (Some TFloat)", "float"), ("ser_date", 'ORet (Some (TLeaf "string" (Some "date") None))', None)]
-PYKEY = {"int": "int", "float": "float", "bool": "bool", "Pt": "Pt"}
+PYKEY = {"int": "int", "float": "float", "bool": "bool", "Pt": "Pt", "list": "list", "dict": "dict"}
 COQKEY = {"int": "TInt", "float": "TFloat", "bool": "TBool", "Pt": 'TOpaque "Pt"'}
 
 
@@ -462,6 +488,12 @@ def m_tables(r):
                 tab[k] = ('{"deserialize": ser_any}', "ODeser")
             else:
                 tab[k] = ('{"serialize": ser_any}', "ORet None")
+    # registrations under the ORIGIN class of a parametrised type: Instance.get_overridden_serialization_method looks a strategy up
+    # under instance.type only (List[int], never list), so the schema ignores them; the model has no key for container types
+    for k in r.sample(["list", "dict"], r.choice([0, 0, 1, 2])):
+        tab = r.choice([dial, conf])
+        tab[k] = r.choice([('{"serialize": ser_str, "deserialize": ser_any}', "ORet (Some TStr)"), ("pass_through", "OPass"),
+                           ('{"serialize": ser_any}', "ORet None")])
     # the winner per key: dialect first, then Config; a table entry without "serialize" is skipped
     for k in K:
         for tab in (dial, conf):
@@ -496,6 +528,8 @@ def m_family(r):
         cfg_aliases = {}
         tabs = m_tables(r)
         over = tabs[2] if tabs else set()
+        _CUR_OVER.clear()
+        _CUR_OVER.update(over)
         pt_ok = bool(tabs) and "Pt" in tabs[3]
         ntd = r.random() < 0.3       # Config.namedtuple_as_dict of the owner decides the form of every NamedTuple below it
         for j in range(nf):
@@ -699,6 +733,7 @@ def m_cases(ctx: vlib.Ctx, n: int):
             pctx = (r.choice(["DRAFT_2020_12", "OPEN_API_3_1"]), r.choice([None, True, False, True]),
                     r.choice([None, "#/q", "#/q/", "#/components/responses", "x"]))
         roots = []
+        _CUR_OVER.clear()
         for _ in range(r.randrange(2, 5) if builder else 1):
             t = m_type(r, r.choice([0, 0, 1, 2]), names) if r.random() < 0.35 else None
             if t is None or not t.classes:
